@@ -29,6 +29,11 @@ fn scheme_b_retyped() -> String {
     format!("# revision 2\n{}\n", scheme(200).replace('=', " = "))
 }
 
+/// Scheme texts of REAL server sessions (ops P / p): texts that end in whitespace, as a scheme read from a file does.
+fn real_server_text(c: char) -> String {
+    if c == 'P' { format!("{}\n", scheme(200)) } else { format!("{}\r\n\r\n", scheme(300)) }
+}
+
 fn scheme_of(c: char) -> Option<String> {
     match c {
         'B' => Some(scheme(200)),
@@ -123,6 +128,45 @@ pub fn child(history: &str) -> i32 {
                 out.push(json!({"step": step, "op": op.to_string(), "pushed_parsable": parsable, "result": r, "panics": rec.outcome.violations.iter().map(|v| v.detail.clone()).collect::<Vec<_>>()}));
                 if parsable {
                     current = Some(pushed);
+                }
+            }
+            'P' | 'p' => {
+                // a real client session against a REAL server session (in-memory): the server's own push decision and payload
+                let text = real_server_text(op);
+                let factory = client_factory();
+                let slot: Arc<Mutex<Option<serde_json::Value>>> = Arc::new(Mutex::new(None));
+                let slot2 = slot.clone();
+                let text2 = text.clone();
+                let sc = scenario(move || {
+                    let slot2 = slot2.clone();
+                    let text2 = text2.clone();
+                    let factory = factory.clone();
+                    async move {
+                        let (cw, sr, c2s) = crate::vpipe::pipe(PipeCfg::new("c2s"));
+                        let (sw, cr, s2c) = crate::vpipe::pipe(PipeCfg::new("s2c"));
+                        let Ok(sf) = PaddingFactory::new(text2.as_bytes()) else { return Outcome::default() };
+                        let _side = start_server_session(sr, sw, Arc::new(sf), None);
+                        let Ok(client) = start_client_session(cr, cw, factory, None, 0).await else { return Outcome::default() };
+                        if let Ok((st, _rx)) = client.open_stream().await {
+                            client.disable_buffering();
+                            let _ = client.write_data_frame(st.id(), Bytes::from_static(b"x")).await;
+                        }
+                        settle().await;
+                        tokio::time::sleep(Duration::from_millis(10)).await;
+                        let (cf, _) = parse_all(&c2s.written());
+                        let (sf, _) = parse_all(&s2c.written());
+                        let announced = cf.iter().find(|f| f.cmd == SETTINGS).and_then(|f| String::from_utf8_lossy(&f.data).lines().find_map(|l| l.strip_prefix("padding-md5=").map(|x| x.trim().to_string())));
+                        let pushed: Vec<String> = sf.iter().filter(|f| f.cmd == UPDATE_PADDING).map(|f| format!("{:x}", md5::compute(&f.data))).collect();
+                        *slot2.lock().unwrap() = Some(json!({"announced_md5": announced, "pushes": pushed, "server_md5": format!("{:x}", md5::compute(text2.as_bytes()))}));
+                        Outcome::default()
+                    }
+                });
+                let rec = run_exec(&sc, &ExecCfg::default(), &[], 0);
+                let r = slot.lock().unwrap().take();
+                let pushed = r.as_ref().map(|v| !v["pushes"].as_array().map(|a| a.is_empty()).unwrap_or(true)).unwrap_or(false);
+                out.push(json!({"step": step, "op": op.to_string(), "result": r, "panics": rec.outcome.violations.iter().map(|v| v.detail.clone()).collect::<Vec<_>>()}));
+                if pushed {
+                    current = Some(text);
                 }
             }
             'R' | 'r' | 'd' | 'q' => {
@@ -246,7 +290,7 @@ fn scheme_stop(n: usize, stop: usize) -> String {
 /// Per-session clause on one session with explicit factories: `k` packets under the announced scheme
 /// (size 150, stop `old_stop`), then a push of a scheme (size 200, stop `new_stop`), then `m` packets.
 /// Returns the write sizes of every packet.
-fn session_case(old_stop: usize, new_stop: usize, k: usize, m: usize) -> Result<Vec<Vec<usize>>, String> {
+pub fn session_case(old_stop: usize, new_stop: usize, k: usize, m: usize) -> Result<Vec<Vec<usize>>, String> {
     let slot: Arc<Mutex<Option<Result<Vec<Vec<usize>>, String>>>> = Arc::new(Mutex::new(None));
     let slot2 = slot.clone();
     let sc = scenario(move || {
@@ -322,7 +366,7 @@ fn session_grid(rep: &mut Report, thorough: bool) {
 /// Padding length that line 0 of the scheme with this md5 prescribes for the authentication preamble
 /// (all schemes of the alphabet have a fixed-size line 0).
 pub fn preamble_pad_of(md5_hex: &str) -> Option<usize> {
-    for text in [scheme(200), scheme(300), scheme(150), scheme_b_retyped(), DEFAULT.to_string()] {
+    for text in [scheme(200), scheme(300), scheme(150), scheme_b_retyped(), DEFAULT.to_string(), real_server_text('P'), real_server_text('p')] {
         if format!("{:x}", md5::compute(text.as_bytes())) == md5_hex {
             let sch = parse_scheme(&text)?;
             return sch.lines.get(&0).and_then(|l| l.iter().find_map(|e| if let Entry::Range(a, b) = e { if a == b { Some(*a as usize) } else { None } } else { None }));
@@ -375,7 +419,7 @@ pub fn client_preambles(histories: &[&str]) -> Vec<Result<(String, u64, String, 
 
 fn expected_size(s: &Option<String>) -> Option<usize> {
     // None = built-in default scheme: not one of the fixed-size schemes
-    s.as_ref().and_then(|t| if t == &scheme(200) || t == &scheme_b_retyped() { Some(200) } else if t == &scheme(300) { Some(300) } else if t == &scheme(150) { Some(150) } else { None })
+    s.as_ref().and_then(|t| if t == &scheme(200) || t == &scheme_b_retyped() || t == &real_server_text('P') { Some(200) } else if t == &real_server_text('p') { Some(300) } else if t == &scheme(300) { Some(300) } else if t == &scheme(150) { Some(150) } else { None })
 }
 
 pub fn run(tier: Tier) -> i32 {
@@ -386,7 +430,7 @@ pub fn run(tier: Tier) -> i32 {
         "schemes B and C prescribe one write of exactly 200 / 300 bytes for every packet below stop (disjoint from each other and from the built-in default), so the scheme in force is visible in the write sizes".into(),
         "client requests run against a scripted TLS server inside the harness that reads the announced padding-md5 and pushes its scheme when it differs".into(),
     ];
-    let ops = ['T', 'Z', 'B', 'b', 'C', 'D', 'X', 'R', 'r', 'd', 'q'];
+    let ops = ['T', 'Z', 'B', 'b', 'C', 'D', 'X', 'R', 'r', 'd', 'q', 'P', 'p'];
     let depth = if thorough { 4 } else { 3 };
     let mut hists: Vec<String> = vec![];
     let mut frontier: Vec<String> = vec![String::new()];
@@ -399,6 +443,9 @@ pub fn run(tier: Tier) -> i32 {
                     continue;
                 }
                 if (o == 'R' || o == 'r' || o == 'd' || o == 'q') && h.chars().filter(|c| *c == 'R' || *c == 'r' || *c == 'd' || *c == 'q').count() >= 2 {
+                    continue;
+                }
+                if (o == 'P' || o == 'p') && h.chars().filter(|c| *c == 'P' || *c == 'p').count() >= 2 {
                     continue;
                 }
                 // the built-in default text is only interesting for a client configured otherwise
@@ -497,6 +544,41 @@ pub fn run(tier: Tier) -> i32 {
                         current = Some(pushed);
                     }
                 }
+                'P' | 'p' => {
+                    let res = &st["result"];
+                    if res.is_null() || !st["panics"].as_array().map(|a| a.is_empty()).unwrap_or(true) {
+                        rep.violation("C19:session-disturbed", &format!("{ctx}: {:?}", st["panics"]), json!({"engine": "BX-child", "history": h}));
+                        continue;
+                    }
+                    let text = real_server_text(op);
+                    let srv_md5 = res["server_md5"].as_str().unwrap_or("").to_string();
+                    let announced = res["announced_md5"].as_str().unwrap_or("").to_string();
+                    let pushes: Vec<String> = res["pushes"].as_array().map(|a| a.iter().filter_map(|x| x.as_str().map(|s| s.to_string())).collect()).unwrap_or_default();
+                    if let Some(cur) = &current {
+                        let want = format!("{:x}", md5::compute(cur.as_bytes()));
+                        if announced != want {
+                            rep.violation("C19:later-session-announces-old-scheme", &format!("{ctx}: a scheme was adopted earlier (md5 {want}) but the session created now announces md5 {announced}"), json!({"engine": "BX-child", "history": h}));
+                        }
+                        if *cur == text && !pushes.is_empty() {
+                            rep.violation("C19:scheme-pushed-again", &format!("{ctx}: the real server pushed its scheme again although the client adopted exactly that scheme earlier (announced md5 {announced}, server md5 {srv_md5})"), json!({"engine": "BX-child", "history": h}));
+                        }
+                    }
+                    if pushes.len() > 1 {
+                        rep.violation("C19:scheme-pushed-again", &format!("{ctx}: {} pushes on one session", pushes.len()), json!({"engine": "BX-child", "history": h}));
+                    }
+                    if pushes.is_empty() && announced != srv_md5 {
+                        rep.violation("C19:server-does-not-push-although-schemes-differ", &format!("{ctx}: the client announced md5 {announced}, the real server runs md5 {srv_md5} and pushed nothing"), json!({"engine": "BX-child", "history": h}));
+                    }
+                    if let Some(p) = pushes.first() {
+                        if *p != srv_md5 {
+                            rep.violation("C19:pushed-text-is-not-the-servers-scheme", &format!("{ctx}: the real server compares announcements with md5 {srv_md5} but pushed a text with md5 {p}: a client that adopts it will be pushed again"), json!({"engine": "BX-child", "history": h}));
+                        }
+                        if announced == srv_md5 {
+                            rep.violation("C19:scheme-pushed-again", &format!("{ctx}: the real server pushed although the client announced its md5"), json!({"engine": "BX-child", "history": h}));
+                        }
+                        current = Some(text);
+                    }
+                }
                 'R' | 'r' | 'd' | 'q' => {
                     let res = &st["result"];
                     let srv = if op == 'R' { scheme(200) } else if op == 'r' { scheme(300) } else if op == 'q' { scheme_b_retyped() } else { DEFAULT.to_string() };
@@ -529,6 +611,6 @@ pub fn run(tier: Tier) -> i32 {
         }
     }
     session_grid(&mut rep, thorough);
-    rep.sections.insert("bx".into(), json!({"histories": n, "depth": depth, "alphabet": "T (touch default) | Z (client constructed with a custom scheme), B b C D (session + push of scheme B / B retyped (same lines, other text) / C / the built-in default text), X (session + unparsable push), R q r d (client request against a scripted TLS server using B / B retyped / C / the built-in default)"}));
+    rep.sections.insert("bx".into(), json!({"histories": n, "depth": depth, "alphabet": "T (touch default) | Z (client constructed with a custom scheme), B b C D (session + push of scheme B / B retyped (same lines, other text) / C / the built-in default text), X (session + unparsable push), P p (real client session against a REAL server session whose scheme text ends in whitespace), R q r d (client request against a scripted TLS server using B / B retyped / C / the built-in default)"}));
     rep.finish("BX over process histories, one fresh child process each: every history of length <= d over {touch default, session with a push of scheme B / C / an unparsable scheme followed by shaped writes, client request through the real Client against a scripted TLS server}; write sizes after a push must be those of the pushed scheme, sessions created afterwards must start with it and announce its md5, an unparsable push changes nothing; plus an exhaustive per-session grid (stop of the announced scheme x stop of the pushed scheme x packets sent before the push) comparing every packet's write sizes with the reference shaper; non-trivial = distinct history / grid case")
 }
